@@ -662,4 +662,3 @@ func c13Classify(c *Ctx, mine *ssa.Function, sc *sharedCell, gos []*ssa.Go) (kin
 
 // reachableRepoAndDeps: repository functions reachable through static calls (incl. closures).
 func reachableRepoAndDeps(fn *ssa.Function) []*ssa.Function { return reachableRepoFuncs(fn) }
-
